@@ -110,6 +110,7 @@ def rule_prefix(rep, idx):
             continue
         _, leaves, I = simmodel.step_paths(idx, b, tracing=1, hooks=hooks)
         seen_layouts = set()
+        seen_list = []
         for p, fl, rv in leaves:
             prints = [e for e in p.events if e[0] == 'print']
             if not prints:
@@ -119,10 +120,12 @@ def rule_prefix(rep, idx):
             sizecond = [c for c in (list(p.pc[1:]) if p.pc[0] == 'and' else [p.pc]) if 'size(debugInfo)' in repr(c)]
             with_syms = bool(sizecond) and all(c[0] == 'not' for c in sizecond)
             layout = 'symbols' if with_syms else 'no-symbols'
-            if layout in seen_layouts:
-                continue
+            # every path is judged (a second path of the same layout differs from the first by some other condition, e.g. on the
+            # address: it must print the same columns)
+            nth = sum(1 for l_ in seen_list if l_ == layout)
+            seen_list.append(layout)
             seen_layouts.add(layout)
-            key = 'byte=0x%02X:%s' % (b, layout)
+            key = 'byte=0x%02X:%s' % (b, layout) + ('' if nth == 0 else ':path%d' % (nth + 1))
             problems = []
             if fmt is None:
                 problems.append('first print of the step is not a formatted prefix: %r' % (first[2],))
